@@ -1,4 +1,4 @@
-import PSO.Proofs.JournalRun
+import PSO.Proofs.JournalCreate
 /-!
 C08 — "File journal equals an in-memory list for any operations, and is kill-safe".
 
@@ -252,5 +252,43 @@ theorem meta_persisted_by_term_vote (ver : Bytes) (hver : ver.length ≤ 8) (ops
 
 example : OkFrom [] ([.setCommit 5, .add ⟨[1], 1, 0⟩] ++ [.timer]) := by
   simp [OkFrom, ValidEntry, listStep, encLen, recLen, U32, U64]
+
+/-! ### creation of the journal file (D74) -/
+
+/-- Constructing a `FileJournal` on a missing file — which the model does not distinguish from a
+zero-length one, `file = []` — IS `create ver`, the start state of all statements above; its
+primitive writes are: file created empty, default header written, grown to `INITIAL_SIZE`. -/
+theorem create_is_open (ver : Bytes) (hver : ver.length ≤ 8) :
+    openDisk ver { file := [] } = .ok (create ver, createPrims ver ++ [.resize INITIAL_SIZE]) :=
+  openDisk_empty ver hver { file := [] } rfl
+
+/-- D74 repaired: a zero-length journal file (a kill between `open(path,'wb')` and the write of the
+default content), whatever else is on the disk, opens as a fresh EMPTY journal instead of raising. -/
+theorem empty_file_opens_as_fresh_journal (ver : Bytes) (hver : ver.length ≤ 8) (d : Disk)
+    (h : d.file.length = 0) :
+    ∃ j ps, openDisk ver d = .ok (j, ps) ∧ j.entries = [] ∧ j.cur = 40 ∧
+      j.disk.file = (create ver).disk.file ∧ j.commitIndex = d.metaFile.getD 1 :=
+  ⟨_, _, openDisk_empty ver hver d h, rfl, rfl, rfl, rfl⟩
+
+/-- Kill at ANY crash point of the creation (`k` primitive writes done, `t` bytes of the next: before
+the file exists, file empty, any prefix of the 40 header bytes, header complete but not yet grown,
+complete): the next start opens an empty journal. -/
+theorem creation_kill_reopens_empty (ver : Bytes) (hver : ver.length ≤ 8) (k t : Nat) :
+    ∃ j ps, openDisk ver (crashDisk { file := [] } (createPrims ver ++ [.resize INITIAL_SIZE]) k t)
+        = .ok (j, ps) ∧ j.entries = [] ∧ j.cur = 40 := by
+  have hlen := defaultHeader_length ver hver
+  have hpre : ∀ (d : Disk) (t : Nat), d.file = (defaultHeader ver).take t →
+      ∃ j ps, openDisk ver d = .ok (j, ps) ∧ j.entries = [] ∧ j.cur = 40 := by
+    intro d t hf
+    obtain ⟨j, ps, h1, h2, h3, _⟩ := openDisk_header_prefix ver hver d t hf
+    exact ⟨j, ps, h1, h2, h3⟩
+  match k with
+  | 0 => exact hpre _ 0 (by simp [createPrims, tornPrim])
+  | 1 => exact hpre _ t (by simp [createPrims, tornPrim, applyPrim])
+  | 2 => exact hpre _ 40 (by simp [createPrims, tornPrim, applyPrim, ← hlen])
+  | k + 3 =>
+    have hd := DInv_fresh ver hver
+    refine ⟨_, _, openDisk_of_DInv (d := crashDisk { file := [] } (createPrims ver ++ [.resize INITIAL_SIZE]) (k + 3) t)
+      ver (by simpa [createPrims, applyPrim] using hd), rfl, rfl⟩
 
 end PSO.C08
